@@ -117,6 +117,13 @@ func init() {
 		What:   "whole generated text on skeleton whole: an interface-level ':style arg' shapes every function of ITS interface and no function of another converter interface; a method-level :skip reaches its own function only (see C11WholeFile)",
 		Bounds: "skeleton whole", Assumes: []string{aT, aSlots}})
 
+	reg(&HarnessSpec{Prop: "C14", Name: "C14MainReports", Pkg: ".", Replay: "e2e-cli",
+		What:    "the REAL main() (harness injected into package main by overlay) with flags, positional argument and GOFILE symbolic and every pipeline stage summarised by an arbitrary result/error: whenever the process ends with os.Exit, the status is 1 and a message was written to standard error before - also for failures that never pass through the logger (os.Stat of the input, the import optimiser, the formatter, the write); a run without failure returns normally",
+		Bounds:  "paths <= 3 bytes (SMT strings); all flag valuations; every stage outcome",
+		Assumes: []string{aEnv, "stage summaries as in C15Run"}})
+	reg(&HarnessSpec{Prop: "C14", Name: "C17Selection",
+		What:    "for C14's 'never reports success while dropping a converter-interface method': on skeleton sel every method of every selected converter interface - incl. the methods an interface has by EMBEDDING an interface declared in a sibling file - yields a function (see C17Selection)",
+		Bounds:  "skeleton sel", Assumes: []string{aT, aSlots}})
 	reg(&HarnessSpec{Prop: "C14", Name: "C14TypeErrors", Replay: "native",
 		What:    "real front half on skeleton dup, whose converter interface declares a method twice (go/types reports the error and leaves the duplicate out; another, unrelated type error stands elsewhere in the file): the run is rejected with a positioned diagnostic instead of succeeding with a method missing",
 		Bounds:  "skeleton dup, 2 slot choices", Assumes: []string{aT, aSlots}})
